@@ -1,5 +1,5 @@
 #!/usr/bin/env python3
-"""Regenerate the round-4 .. round-8 tables of DESIGN.md section 11 from seeded/*/meta.json and
+"""Regenerate the round-4 .. round-9 tables of DESIGN.md section 11 from seeded/*/meta.json and
 seeded/RESULTS.json (between the markers)."""
 import json, os, re
 res=json.load(open('/verif/seeded/RESULTS.json'))
@@ -67,6 +67,17 @@ fine rotation steps in C12; no offset arrays mixing `deg()` with plain radians i
 
 {table('r8-')}
 
+Ninth round, free choice "of a kind not in the list of the eight earlier rounds" (feature
+interactions, order of construction, `Clone`, integer extremes, very long files, degenerate but
+legal geometry, shared atomics): 21 more, `/verif/seeded/r9-*`. When first run 13 were caught and 8
+missed. Five of the misses were workload bounds again (no cloned tables, no entry equal to a
+default, no pure-rotation transforms, a rotationally symmetric last link, integer extremes and
+files beyond 64 KiB absent) and are caught now; three stay uncaught and are explained in their
+rows (`r9-c10-m2`: the property does not define the configuration it needs; `r9-c12-m2`; `r9-c13-m1`:
+a 65,537-vertex tree).
+
+{table('r9-')}
+
 Probes of my own (no demonstration programs, not counted): `own-hang-1` (a spin loop between
 scheduling points, reported as `t:no-termination` by the watchdog), `own-r6-c11-m3-static` (my
 port of `r6-c11-m3` to a static, caught by C11 after its second phase was made to repeat the
@@ -75,9 +86,9 @@ budget in `dual_rrt_connect`, caught by C12 clause g through the simulated clock
 (`Tool::forward_with_joint_poses` moving link 6 to the tool centre point, caught by the placement
 oracle of C10).
 
-Totals over the eight rounds (final matrix, every kept change against the final machinery, default
+Totals over the nine rounds (final matrix, every kept change against the final machinery, default
 seed): {det} of {tot} seeded changes are caught by the QUICK tier of their property's check. The
-four others: `r5-c13-m1` (quick at 2 of 4 seeds, thorough at the default seed: the collision has
+others, besides the three of round 9 named above: `r5-c13-m1` (quick at 2 of 4 seeds, thorough at the default seed: the collision has
 to be on a pair in the tail of the task list at a pool size that leaves a remainder), `c12-m2` (a
 rare event by its author's own account: thorough at 2 of 4 seeds, see below), `r7-c13-m1` (not
 caught: needs an obstacle thinner than a hundredth of a degree of joint motion, see its row),
@@ -87,7 +98,7 @@ matrices caught by luck at the default seed were made robust in the last session
 `r4-c11-m1`, `r4-c11-m3`, `r6-c18-m1`, `r8-c19-m3`): every time the simulator's stream layout
 changes, marginal detections move, which is why the matrix is re-run after every change of the
 machinery (in full after the last change of the shared parts; for C12 and C19, whose generators
-changed once more after round 8, their 63 entries were re-run).
+changed once more after rounds 8 and 9, their entries and those of C11 and C14 were re-run).
 <!-- SEEDED-TABLES-END -->"""
 s=open('/verif/DESIGN.md').read()
 if '<!-- SEEDED-TABLES-BEGIN -->' in s:
